@@ -572,6 +572,21 @@ class FormulaEngine3Phase(Generic[QuantityT]):
                 phase_1 = await phase_1_rx.receive()
                 phase_2 = await phase_2_rx.receive()
                 phase_3 = await phase_3_rx.receive()
+                # The per-phase streams may start at different times.  Skip ahead on
+                # the lagging ones until all three samples are for the same timestamp.
+                while not (
+                    phase_1.timestamp == phase_2.timestamp
+                    and phase_2.timestamp == phase_3.timestamp
+                ):
+                    latest = max(
+                        phase_1.timestamp, phase_2.timestamp, phase_3.timestamp
+                    )
+                    if phase_1.timestamp < latest:
+                        phase_1 = await phase_1_rx.receive()
+                    if phase_2.timestamp < latest:
+                        phase_2 = await phase_2_rx.receive()
+                    if phase_3.timestamp < latest:
+                        phase_3 = await phase_3_rx.receive()
                 msg = Sample3Phase(
                     phase_1.timestamp,
                     phase_1.value,
